@@ -17,6 +17,7 @@ rm -f "$W/verif/harness/Cargo.lock"
 # reuse the compiled dependencies of the main target dir (hard links, no extra space, rebuilds only the path crates)
 mkdir -p "$W/verif/.build"
 cp -al /verif/.build/target "$W/verif/.build/target" 2>/dev/null || true
+cp -al /verif/.build/target-ndebug "$W/verif/.build/target-ndebug" 2>/dev/null || true
 cd "$W/verif"
 set +e
 VERIF_REPO="$W/repo" python3 tools/check.py "$PROP" --tier "$TIER" > "$W/check.out" 2>&1
